@@ -402,6 +402,9 @@ def gen_op(rng, st, cfg):
         return {"op": "split", "s": s, "dim": rng.randint(0, 4)}
     if kind == "stack":
         return {"op": "stack", "s": s, "dim": rng.randint(0, 4)}
+    if kind == "stock_convert":
+        return {"op": "stock_convert", "k": rng.randint(0, 3), "how": rng.choice(["to_stock_type", "stock_stack"]),
+                "cls": rng.choice(["simple", "inflow", "stockdriven"]), "dim": rng.randint(0, 5)}
     if kind == "system":
         return {"op": "system", "then": rng.choice(["build", "dict_numpy", "dict_pandas", "new_array", "check"])}
     if kind == "stock_compute":
@@ -434,9 +437,9 @@ def gen_op(rng, st, cfg):
 
 def gen_cfg(rng, prop):
     base = {"mk": 5, "arith": 5, "reduce": 4, "slice": 5, "setitem": 6, "set_values": 3, "inplace_unary": 1, "df": 2,
-            "split": 1, "stack": 1, "stock": 2, "lifetime": 1, "stock_compute": 1, "system": 1}
+            "split": 1, "stack": 1, "stock": 2, "lifetime": 1, "stock_compute": 1, "system": 1, "stock_convert": 1}
     if prop == "C05":
-        base.update({"setitem": 16, "slice": 4, "stock": 0, "lifetime": 0, "stock_compute": 0, "system": 0, "df": 1, "set_values": 2})
+        base.update({"setitem": 16, "slice": 4, "stock": 0, "lifetime": 0, "stock_compute": 0, "system": 0, "stock_convert": 0, "df": 1, "set_values": 2})
     elif prop == "C15":
         base.update({"slice": 9, "arith": 8, "reduce": 6, "mk": 7, "system": 3, "lifetime": 2})
     elif prop == "C13":
